@@ -169,6 +169,7 @@ impl Ctx {
             }
         }
         self.cur_case = desc();
+        crate::watchdog::note_case(&self.cur_case);
         if self.want_case_digests {
             self.case_digests.push((self.case_idx, crate::tok::trace_digest()));
         }
